@@ -6,6 +6,7 @@ or from decoding bytes; verdicts come from TLC (TraceAdmin)."""
 import io
 import json
 import os
+import shutil
 import string
 import sys as _sys
 from types import SimpleNamespace
@@ -343,6 +344,11 @@ def _pick(v, dom, rng):
     return v if v not in ("?", None) else rng.choice(dom)
 
 
+# what may already sit at the output path(s) (spec/AdminProps.tla, C.pre)
+PRE_KINDS = {"pubkeys": ("absent", "same", "other", "extra", "fewer", "notjson", "dir", "dirjson"),
+             "onboard": ("absent", "other", "notjson", "dir"),
+             "unlock": ("absent",), "changepin": ("absent",)}
+
 FAVOURABLE = {"echo": "t", "answers": "yes", "wipe": "t", "unlock": "t", "newpin": "t",
               "mode2": "signer", "keys": "t", "retry": "valid"}
 
@@ -368,6 +374,9 @@ def scenario_from_model(cfg, e, rng, boundary=False, member=None, favourable=Fal
                 "signer" if (cfg["plat"] == "sgx" or cfg["op"] == "pubkeys") else "boot")
         if e["onb"] == "?":
             e["onb"] = "no" if cfg["op"] == "onboard" else "yes"
+    pre = e.get("pre", "?")
+    if pre == "?":
+        pre = "absent" if favourable else rng.choice(PRE_KINDS[cfg["op"]])
     pinc = e["pinc"] if e["pinc"] != "?" else ("ok" if favourable else rng.choice(sorted(PIN_MEMBERS)))
     first = member if member is not None else pin_of_class(pinc, rng, boundary)
     pins = [first]
@@ -386,7 +395,7 @@ def scenario_from_model(cfg, e, rng, boundary=False, member=None, favourable=Fal
         echo=_pick(e["echo"], ["t", "f"], rng), answers=answers,
         wipe=_pick(e["wipe"], ["t"], rng), unlock=_pick(e["unlock"], ["t", "f"], rng),
         newpin=_pick(e["newpin"], ["t", "f"], rng), mode2=_pick(e["mode2"], MODES, rng),
-        keys=_pick(e["keys"], ["t", "f"], rng), keys_fail_at=0, rng=rng, shapes=shapes)
+        keys=_pick(e["keys"], ["t", "f"], rng), keys_fail_at=0, rng=rng, shapes=shapes, pre=pre)
     sc.desc["pinc"] = pinc
     return sc
 
@@ -425,7 +434,7 @@ def pin_decisive(b):
 
 def build(op, plat, any_pin, no_unlock, src, pins, outfile, mode, onb, echo, answers, wipe, unlock,
           newpin, mode2, keys, rng, keys_fail_at=None, upin=None, strict=False, no_exec=False,
-          devseed=None, cli=False, shapes=None):
+          devseed=None, cli=False, shapes=None, pre="absent"):
     """The concrete environment of one run (all fields are plain data: the replay file is this).
     `shapes`: {echo, onb, wipe, unlock, unlock_byte, newpin} -> how the device words that answer."""
     shapes = shapes or {}
@@ -444,7 +453,8 @@ def build(op, plat, any_pin, no_unlock, src, pins, outfile, mode, onb, echo, ans
                 unlock_byte=shapes.get("unlock_byte") or rng.choice(UNLOCK_TRUE_BYTES),
                 newpin_how=shapes.get("newpin") or rng.choice(NEWPIN_SHAPES[plat]),
                 yes=rng.choice(YES), no=rng.choice(NO), other=rng.choice(OTHER),
-                verbose=rng.random() < 0.3, cli=bool(cli))
+                verbose=rng.random() < 0.3, cli=bool(cli),
+                pre=pre, pre_devseed=rng.randrange(1 << 30))
     return Scenario(desc=desc)
 
 
@@ -492,7 +502,86 @@ def answer_lines(d):
 
 
 # ---------------------------------------------------------------------- run + project
-def run(sc, scratch, tag, prev_seed=None):
+def _clear(path):
+    if os.path.isdir(path) and not os.path.islink(path):
+        shutil.rmtree(path)
+    elif os.path.lexists(path):
+        os.unlink(path)
+
+
+def prepare_output(d, out_path, scratch, tag):
+    """Put at the output path(s) what the scenario says is already there. Earlier exports are made by
+    the real command, in this process, against the same device or against another one (other keys:
+    another device, or this one wiped and onboarded again with a new seed)."""
+    jp = os.path.splitext(out_path)[0] + ".json"
+    _clear(out_path)
+    _clear(jp)
+    pre = d.get("pre", "absent")
+    if pre == "absent":
+        return
+    if pre == "dir" or (pre == "dirjson" and jp == out_path):
+        os.mkdir(out_path)
+        return
+    if pre == "dirjson":
+        os.mkdir(jp)
+        return
+    if pre == "notjson":
+        for p in {out_path, jp}:
+            with open(p, "w") as f:
+                f.write("Name \t Path \t Pubkey\n{ this is not JSON ]\n")
+        return
+    if d["op"] == "onboard":
+        with open(out_path, "w") as f:       # a certificate left by the onboarding of another device
+            json.dump({"version": 1, "targets": ["attestation"], "elements": [
+                {"name": "attestation", "message": "ff04" + "5a" * 64, "signature": "3006020101020101",
+                 "signed_by": "device"},
+                {"name": "device", "message": "02" + "00" * 9 + "04" + "a5" * 64,
+                 "signature": "3006020102020102", "signed_by": "root"}]}, f, indent=2)
+        return
+    # pubkeys: an earlier export by the real command
+    earlier = build(op="pubkeys", plat=d["plat"], any_pin=False, no_unlock=True, src="opt", pins=["abcd1234"],
+                    outfile=True, mode="signer", onb="yes", echo="t", answers="yes", wipe="t", unlock="t",
+                    newpin="t", mode2="signer", keys="t", rng=_FixedRng(),
+                    devseed=(d["devseed"] if pre == "same" else d["pre_devseed"]))
+    try:
+        run(earlier, scratch, tag, out_path=out_path)
+    except Exception:      # noqa: a broken tree may fail here; the environment is then simply emptier
+        return
+    if pre in ("extra", "fewer"):
+        try:
+            with open(jp) as f:
+                obj = json.load(f)
+            with open(out_path) as f:
+                lines = f.read().splitlines()
+            if pre == "extra":
+                obj["m/44'/0'/0'/0/1"] = "04" + "11" * 64
+                lines.insert(len(lines) - 1, "xtra \t\t m/44'/0'/0'/0/1 \t\t 02" + "11" * 32)
+            else:
+                for k in list(obj)[:2]:
+                    del obj[k]
+                    lines = [ln for ln in lines if k not in ln.split()]
+            with open(jp, "w") as f:
+                f.write("%s\n" % json.dumps(obj, indent=2))
+            with open(out_path, "w") as f:
+                f.write("\n".join(lines) + "\n")
+        except (OSError, ValueError):
+            pass
+
+
+class _FixedRng:
+    """Minimal rng for scenarios whose random fields do not matter."""
+
+    def choice(self, seq):
+        return seq[0]
+
+    def randrange(self, *a):
+        return 0
+
+    def random(self):
+        return 1.0
+
+
+def run(sc, scratch, tag, prev_seed=None, out_path=None):
     """Run the command of scenario `sc` on the real code. Returns the trace record for TraceAdmin plus
     diagnostics (keys not read by the spec)."""
     env.setup()
@@ -518,13 +607,10 @@ def run(sc, scratch, tag, prev_seed=None):
         return None
     operator = Operator(world, lines, prompt_pins, recall)
     rnd = Randomness(world)
-    out_path = None
-    if d["outfile"]:
+    if out_path is None and d["outfile"]:
         out_path = os.path.join(scratch, "%s_%s.%s" % (d["op"], tag,
                                                        "json" if d["op"] == "onboard" else "txt"))
-        for p in (out_path, os.path.splitext(out_path)[0] + ".json"):
-            if os.path.exists(p):
-                os.unlink(p)
+        prepare_output(d, out_path, scratch, tag)
     opt_pin = d["pins"][0] if d["src"] == "opt" else None
     options = SimpleNamespace(verbose=d["verbose"], any_pin=d["any_pin"], no_exec=d["no_exec"],
                               no_unlock=d["no_unlock"], output_file_path=out_path, pin=None,
@@ -562,7 +648,7 @@ def run(sc, scratch, tag, prev_seed=None):
         "answers": [c for (_, c) in answer_lines(d)], "d0": d0, "acc": acceptance(d),
         "prev_seed": list(prev_seed) if prev_seed else [],
         "ev": evs, "outcome": outcome, "files": files, "expect": expect,
-        "fin_pin": list(bytes(dev.pin)),
+        "fin_pin": list(bytes(dev.pin)), "pre": d.get("pre", "absent"),
     }
     diag = {"exc": exc, "desc": d, "classes": [e["cls"] for e in evs],
             "seed_received": dev.received_seed, "draws": rnd.draws, "stdout": patched.out.getvalue(),
@@ -626,7 +712,8 @@ def run_generated(n, scratch, tag):
             "pins": [], "upin": [], "outfile": False, "answers": [],
             "d0": {"mode": "na", "onb": "na", "echo": "na"},
             "acc": {"wipe": "?", "unlock": "?", "newpin": "?"}, "prev_seed": [], "ev": evs,
-            "outcome": "ok", "files": {"txt": [], "json": []}, "expect": [], "fin_pin": []}
+            "outcome": "ok", "files": {"txt": [], "json": []}, "expect": [], "fin_pin": [],
+            "pre": "absent"}
 
 
 def _ev(cls, truth, ans="na", ok="na", i=0, b=0, data=()):
